@@ -77,7 +77,7 @@ def rule_emptiness(ctx: Ctx) -> None:
             if fpv is True:
                 ctx.check(not aug, "C01-emptiness", "get_object_results", "leftovers:fp-validation", "in FP validation the unpaired estimates are appended as results; they must be dropped", fi=fi)
             elif fpv is False:
-                ok = len(aug) == 1 and S(aug[0].value if aug[0].kind == "aug" else aug[0].args[0]).startswith("_get_fp_object_results(estimated_objects_")
+                ok = len(aug) == 1 and (aug[0].kind != "aug" or aug[0].name == "Add") and S(aug[0].value if aug[0].kind == "aug" else aug[0].args[0]).startswith("_get_fp_object_results(estimated_objects_")
                 ctx.check(ok, "C01-emptiness", "get_object_results", "leftovers:normal",
                           f"outside FP validation the unpaired estimates must be appended once as GT-less results built from the working list (found {[strip_v(U(a.value)) if a.value is not None else a.text for a in aug]})", fi=fi)
             elif left is False:
@@ -139,6 +139,8 @@ def rule_inputs_untouched(ctx: Ctx) -> None:
 
 
 def run(ctx: Ctx) -> None:
+    from rules import C11
+    ctx.run(C11.rule_dispatch)  # objects that carry geometry are matched geometrically (the id matchers are only for ROI-less 2D objects)
     ctx.run(M.rule_index_space)
     ctx.run(M.rule_score_table)
     ctx.run(rule_emptiness)
